@@ -131,7 +131,32 @@ def finish(prop, tier, seed, packs, results, t0, a):
     known = [k for k in load_known() if k.get("property") == prop]
     obls = [o for r in results for o in r["obligations"]]
     errors = [(r["task"], r["error"], r.get("trace", "")) for r in results if r["error"]]
-    failing = [o for o in obls if o["verdict"] != "proved"]
+    # bounded stand-ins (thorough tier, or quick if cheap).  Never counted as proved; a failing grid point / witness is a failing
+    # pseudo-obligation `<prop>.bounded.<check>[.<witness id>]` that known_findings.json may list like any other
+    bounded = []
+    if not a.only:
+        for p in packs:
+            for (name, bound, f) in p.bounded:
+                if tier == "thorough" or getattr(f, "quick", False):
+                    try:
+                        tb = time.time()
+                        out = f(tier, seed)
+                        out = dict(out or {})
+                        out.update({"what": name, "bound": bound, "wall_s": round(time.time() - tb, 2)})
+                        bounded.append(out)
+                    except Exception as ex:
+                        bounded.append({"what": name, "bound": bound, "result": "error: %s" % ex})
+    bounded_failing = []
+    for b in bounded:
+        if b.get("result") == "violation":
+            ws = b.get("witnesses") or [{"id": None, "example": b.get("witness")}]
+            for w in ws:
+                nm = "%s.bounded.%s%s" % (prop, b["what"], ("." + str(w["id"])) if w.get("id") else "")
+                bounded_failing.append({"name": nm, "verdict": "refuted", "backend": "bounded",
+                                        "detail": json.dumps(w)[:2000], "model": w, "goal": b["what"],
+                                        "kind": "bounded", "line": None, "time": b.get("wall_s", 0), "nhyps": 0,
+                                        "native_confirmed": True})
+    failing = [o for o in obls if o["verdict"] != "proved"] + bounded_failing
     known_hit, violations = [], []
     for o in failing:
         k = None
@@ -152,25 +177,6 @@ def finish(prop, tier, seed, packs, results, t0, a):
                            "backend": "engine", "detail": "%s\n%s" % (err, tr[-3000:] if tr else ""), "model": None,
                            "goal": "every obligation of task %s is generated from the current source and discharged" % tname,
                            "kind": "task", "line": None, "time": 0, "nhyps": 0})
-    # bounded stand-ins (thorough tier, or quick if cheap)
-    bounded = []
-    if not a.only:
-        for p in packs:
-            for (name, bound, f) in p.bounded:
-                if tier == "thorough" or getattr(f, "quick", False):
-                    try:
-                        tb = time.time()
-                        out = f(tier, seed)
-                        out = dict(out or {})
-                        out.update({"what": name, "bound": bound, "wall_s": round(time.time() - tb, 2)})
-                        bounded.append(out)
-                    except Exception as ex:
-                        bounded.append({"what": name, "bound": bound, "result": "error: %s" % ex})
-    for b in bounded:
-        if b.get("result") == "violation":
-            violations.append({"name": "%s.bounded.%s" % (prop, b["what"]), "verdict": "refuted", "backend": "bounded",
-                               "detail": json.dumps(b.get("witness"))[:2000], "model": b.get("witness"), "goal": b["what"],
-                               "kind": "bounded", "line": None, "time": b.get("wall_s", 0), "nhyps": 0})
     lines = []
     replay_dir = os.path.join(ROOT, "replays", prop)
     by_k = {}
@@ -190,9 +196,10 @@ def finish(prop, tier, seed, packs, results, t0, a):
         rep = {"property": prop, "obligation": o["name"], "verdict": o["verdict"], "backend": o["backend"],
                "solver_output": o["detail"], "model": o["model"], "goal": o["goal"], "line": o["line"],
                "rerun": "./vcheck %s --replay %s" % (prop, path)}
-        confirmed = None
+        confirmed = True if o.get("native_confirmed") else None
         try:
-            confirmed = rp.try_native(prop, o, rep, REPO)
+            if confirmed is None:
+                confirmed = rp.try_native(prop, o, rep, REPO)
             if confirmed is None:
                 # pack-provided replay for ground/structural obligations
                 best = None
@@ -237,7 +244,7 @@ def finish(prop, tier, seed, packs, results, t0, a):
         assumptions += p.assumptions
         trusted += p.trusted
         notdec += p.not_decided
-    claimed = len(obls) - len(known_hit)
+    claimed = len(obls) - sum(1 for (o, k) in known_hit if o.get("kind") != "bounded")
     ev = {
         "property_id": prop, "tier": tier, "seed": seed, "level": "proof",
         "coverage": {
